@@ -63,7 +63,7 @@ class BaseServer(_AuthorizationServer):
 
     def create_oauth1_request(self, request):
         if request.method == "POST":
-            body = request.POST.dict()
+            body = [(k, v) for k, values in request.POST.lists() for v in values]
         else:
             body = None
         url = request.build_absolute_uri()
